@@ -110,7 +110,10 @@ def check_program(prog, cfgs, inputs, out, size, driver, native=None):
                 out["violations"].append({
                     "driver": driver, "size": size, "title": "%s: %s (v%d fp=%s ss=%s)" % (driver, why, cfg.version, cfg.frame_pointers, cfg.scratch_slots),
                     "recipe": prog, "native": native, "cfg": cfg.to_json(), "input": inp, "expected": exp, "observed": got,
-                    "fail_reason": res.why, "teal": text, "features": {"why": why.split(" (")[0][:40]},
+                    "fail_reason": res.why, "teal": text,
+                    "features": dict({"why": why.split(" (")[0][:40]},
+                                     **({"driver": driver, "operands_pending": bool(prog["meta"]["pending"])}
+                                        if driver == "operand-transfer" else {})),
                 })
 
 
@@ -135,6 +138,16 @@ def run(tier):
     rep.bounds["configs"] = [repr(c) for c in _CFGS]
     items = [(s, p, i, "subs", None) for s, p, i in gen_sub.programs(tier)]
     items += [(s, None, i, "abi-subs", nat) for s, nat, i in gen_abisub.programs(tier)]
+    # every call graph over <= 3 routines (who calls whom, in which order the routines were defined)
+    cg_inputs = [{"args": [bytes([n]), b"\x00"]} for n in (0, 1, 2, 3)]
+    for k in (2, 3):
+        for a in gen_sub.call_graphs(k, "all" if tier == "thorough" else "two"):
+            items.append((k, gen_sub.call_graph(*a), cg_inputs, "call-graph", None))
+    # control transfers inside an operand of a subroutine body (pending operands belong to the routine, not the caller)
+    from ..recipe import gen_xfer
+    for size, prog, inputs, meta in gen_xfer.programs():
+        if meta["placement"] == "sub":
+            items.append((size, dict(prog, meta=meta), inputs, "operand-transfer", None))
     rep.bounds["recipes"] = len(items)
     for sh in common.pmap_shards(_worker, items, shard_size=4, order_seed=rep.seed):
         rep.merge(sh)
